@@ -48,6 +48,13 @@ def images(work: str, seed: int) -> List[Dict[str, Any]]:
     out.append({"kind": "akai", "path": p, "map": {"root": "", "dir1": "A:/VOL A", "dir2": "B:/KICK-", "file": "A:/VOL A/S0", "bad": "A:/nope/x"}})
     r = naming.roland_dirs_case(["Perf X", "Lead-"], "performance")
     r["img"]["samples"][0]["name"] = "Lead-"            # a sample of the FIRST performance named like the second performance
+    # a sample used by BOTH performances, stored in a permuted three-cluster chain behind a leading-cluster offset: every
+    # further request for its chain must resolve to the same clusters
+    r["img"]["samples"].append({"name": "Both", "chain": [4, 6, 5], "ctop": 1, "mode": 2, "freq": 1, "pts": [0, 0, 6000, 0, 6000], "key": 60})
+    r["fat"] += [[4, 6], [6, 5], [5, 65528]]
+    r["nclusters"] = 9
+    r["img"]["partials"][0]["refs"] = [0, 2]
+    r["img"]["partials"][1]["refs"] = [1, 2]
     p = os.path.join(work, "roland.img")
     open(p, "wb").write(rw.build_image(r, seed))
     out.append({"kind": "roland", "path": p, "map": {"root": "", "dir1": "Vol", "dir2": "Vol/Lead-", "file": "Vol/Perf X/Lead-", "bad": "Vol/zz"}})
